@@ -436,6 +436,8 @@ class Generator:
             if getattr(self, "_broadcast", None):
                 b = body.index("{")
                 body = body[:b + 1] + " broadcast use {%s}; " % ", ".join(self._broadcast) + body[b + 1:]
+            for a in [x for x in opts.get("attrs", "").split(";") if x]:
+                g.lines.append("#[%s]" % a)   # verifier attributes only (e.g. verifier::rlimit(200))
             g.lines += out_sig.split("\n")
             if spec.strip():
                 g.lines += ["    " + l for l in spec.rstrip("\n").split("\n")]
